@@ -14,7 +14,64 @@ TECH = ('bounded model checking of the compiled Rust code: Kani 0.68 -> CBMC 6.1
         'SAT (CaDiCaL) decides every assertion for all inputs within the stated bounds; '
         'counterexamples replayed natively')
 
+U_NOTE = ('Instantiation: Enr<MKey> (model identity scheme: 1-byte public keys under "k", variable-length signatures 3..=6 bytes, '
+          'signer that can fail), generic code of lib.rs/builder.rs as compiled; MAX_ENR_SIZE scaled to 32 by the rewriter '
+          '(literal change still visible: scaled = 32 + (literal - 300)); std BTreeMap and bytes replaced by models (validated by '
+          'the repo test-suite natively, counterexamples replayed against the real ones); enr::digest stubbed by an injective '
+          'function on 1-byte keys; Enr::id stubbed where incidental; <[u8]>::to_vec stubbed by a fixed-capacity copy. Records <= 40 '
+          'bytes, <= 4 pairs; the 56-byte and 256-byte RLP header thresholds are outside the bound. Trusted: Kani/CBMC/CaDiCaL.')
+U_SET = ('single-step harnesses u_set_tcp4, u_replace_tcp4, u_insert_raw (arbitrary/malformed raw RLP), u_set_seq, u_remove_key, '
+         'u_set_udp_socket4, u_remove_insert, u_set_public_key: ONE mutator call with symbolic arguments from an ARBITRARY valid '
+         'pre-state (any 64-bit seq, any key, valid signature of any admissible length) with a symbolic signer (same or different '
+         'key, may fail, any signature length). One inductive step from a symbolic valid state covers call histories of any length; '
+         'the signing fault is one symbolic bit.')
+
 CLAIMS = {
+    'C05': dict(
+        text='Bounded model checking of the real mutators: ' + U_SET + ' On Ok the post-state is asserted to be the sorted-map model '
+             'result, signed by the signer over exactly that content (MAC model), with the signer\'s key and node id, within the '
+             'size limit; verify() itself is pinned on by-parts records (a_verify_iff). Builder: u_build.',
+        note=U_NOTE + ' "verifies" is decided compositionally (signature = signer MAC over model content, plus verify() <=> MAC match on '
+             'arbitrary by-parts records), because reading an encoded post-state exhausts the solver.',
+        ref='DESIGN.md section 4/C05'),
+    'C06': dict(
+        text='Same single-step harnesses: on every Err (size, sequence overflow, ill-typed/malformed value, signer failure - each driven '
+             'by a symbolic input) sequence number, node id, signature bytes, every pair and the encoding length are asserted equal '
+             'to the snapshot taken before the call.',
+        note=U_NOTE, ref='DESIGN.md section 4/C06'),
+    'C07': dict(
+        text='Same single-step harnesses with a free 64-bit sequence number: Ok => seq+1 (set_seq: exactly the requested value), '
+             '2^64-1 => Err(SequenceNumberTooHigh) and no wrap; decode side: d_min (sequence number item of the input is what seq() reports).',
+        note=U_NOTE, ref='DESIGN.md section 4/C07'),
+    'C08': dict(
+        text='Same single-step harnesses against a sorted-map model: pairs after Ok are exactly the model\'s (iteration order, keys, raw values), '
+             'return values are the previous values, each error kind is reported only when its cause is present, malformed raw values and '
+             'ill-typed reserved values are refused with InvalidRlpData, set_public_key(own key) succeeds.',
+        note=U_NOTE, ref='DESIGN.md section 4/C08'),
+    'C09': dict(
+        text='Same single-step harnesses on a scaled limit (32): every record handed out has size() == length predicted from the parts and <= limit; '
+             'Err(ExceedsMaxSize) exactly when the candidate (old signature) or the finished record (new seq, new signature of another length) exceeds it. '
+             'The literal 300 is pinned at the decoder by d_gate on the unscaled source.',
+        note=U_NOTE, ref='DESIGN.md section 4/C09'),
+    'C10': dict(
+        text='Same single-step harnesses and decode templates: node id == digest(public key stored) == NodeId::from(public_key()), unchanged under '
+             'same-key updates, re-keyed under other-key updates (injective digest stub).',
+        note=U_NOTE + ' Keccak-256 itself and k256 point decompression are trusted (pinned by the suite\'s vector tests).',
+        ref='DESIGN.md section 4/C10'),
+    'C14': dict(
+        text='Bounded model checking of every typed accessor against a reference decoder on records assembled from arbitrary parts: all one-item raw values '
+             '<= 4 bytes under each port key (all 65536 ports and every malformed form), <= 6 / <= 18 bytes under ip / ip6, id, get_decodable::<u64>; '
+             'socket getters and reachability flags equal the combination of the single getters for six concrete presence sets (quick) and all 64 '
+             'combinations (thorough); setter side (stores canonical encoding, reads back) in the update-step harnesses.',
+        note='Values restricted to exactly one RLP item (what the library can hand out, established by the update-step harnesses); lossy UTF-8 stub exact on ASCII <= 4 bytes; '
+             'client_info strings not covered yet. Trusted: Kani/CBMC, map/bytes models.',
+        ref='DESIGN.md section 4/C14'),
+    'C15': dict(
+        text='Bounded model checking on pairs/triples of records assembled from arbitrary parts (any seq, any node id, signatures of 0..=6 bytes): '
+             'a == b <=> (seq, node id, signature) equal; equal => identical writes to a recording Hasher; clone equals original field by field; '
+             'symmetry, reflexivity, transitivity; compare_content <=> same seq and same pairs regardless of signature.',
+        note='"Equal records carry identical pairs" holds for real schemes only under collision resistance of the signature scheme (trusted). Records with <= 2 pairs, values <= 3 bytes.',
+        ref='DESIGN.md section 4/C15'),
     'C16': dict(
         text='Bounded model checking (Kani/CBMC) of the real NodeId code: every slice of length 0..=64 through parse, '
              'all 32-byte values through new/raw/as_ref/From/PartialEq, every ASCII string of length 0..=70 through the '
